@@ -251,7 +251,7 @@ class PanicRule:
                 return True, "table:%s (%s)" % (e["predicate"], why)
             return False, "table predicate %s no longer holds: %s" % (e["predicate"], why)
         for rule in (self.auto_const_bounds, self.auto_const_divisor, self.auto_index_guarded, self.auto_sep_in_iteration,
-                     self.auto_counter, self.auto_captures_get0, self.auto_fmt):
+                     self.auto_counter, self.auto_add_under_bound, self.auto_captures_get0, self.auto_fmt):
             r = rule(s)
             if r:
                 return True, r
@@ -687,3 +687,588 @@ def slice_from_find_plus_one(self, s, args):
     if not any(_closure_is_plus_one(self.prog, c) for c in cids):
         return False, "closure is not |v| v + 1"
     return True, "start = find(ASCII %r)+1 or 0 on the same string" % chr(f.args[1].v)
+
+
+# ---------------------------------------------------------------------- more predicates
+
+EXPECT_FNS = {
+    "haystack::encoding::zinc::decode::scanner::Scanner::expect_and_consume": "byte",
+    "haystack::encoding::zinc::decode::scanner::Scanner::expect_and_consume_any_of": "str",
+    "haystack::encoding::zinc::decode::scanner::Scanner::expect_and_consume_any_in_range": "range",
+}
+
+
+def _range_const(body, op):
+    """(lo, hi) of a constant RangeInclusive<u8> operand (promoted / named const), else None"""
+    r = fmtargs.chase(body, op)
+    if r is None:
+        return None
+    if r[0] == "const":
+        c = r[1]
+        if "raw" in c and "field_offsets" in c:
+            offs = dict((n, o) for n, o in c["field_offsets"])
+            if "start" in offs and "end" in offs:
+                return c["raw"][offs["start"]], c["raw"][offs["end"]]
+    if r[0] == "agg" and r[1].get("adt", "").endswith("RangeInclusive"):
+        vals = [G.describe(body, o) for o in r[1]["ops"][:2]]
+        if all(v.kind == "const" for v in vals):
+            return vals[0].v, vals[1].v
+    return None
+
+
+def expect_summary_ok(prog):
+    """each Scanner::expect_and_consume* returns Ok(x) only with x = a copy of self.cur taken under the passing edge of
+    the membership test against its argument"""
+    why = []
+    for fid, kind in EXPECT_FNS.items():
+        body = prog.get(fid)
+        if body is None:
+            return False, "missing " + fid
+        oks = 0
+        for bi, blk in enumerate(body.blocks):
+            for st in blk["stmts"]:
+                if st["k"] == "assign" and st["rv"]["k"] == "agg" and st["rv"].get("adt") == "std::result::Result" and st["rv"].get("variant") == "Ok":
+                    oks += 1
+                    v = G.describe(body, st["rv"]["ops"][0])
+                    if repr(v) != "_1*.cur":
+                        # the value must be the local copy `cur` taken right after the test
+                        pl = mir.op_place(st["rv"]["ops"][0])
+                        sd = body.single_def(pl["l"]) if pl and not pl["p"] else None
+                        if not (sd and sd[1] != "term" and sd[2]["k"] == "use" and repr(G.describe(body, sd[2]["op"])) == "_1*.cur"):
+                            return False, "%s: Ok(%r) is not the current byte" % (fid.split("::")[-1], v)
+                        defblk = sd[0]
+                    else:
+                        defblk = bi
+                    gs = G.guards_at(body, defblk)
+                    good = False
+                    for g in gs:
+                        r = repr(g)
+                        if kind == "byte" and g.op == "Eq" and "_1*.cur" in r and "_2" in r:
+                            good = True
+                        if kind == "str" and g.op == "True" and "is_any_of(_1*, _2" in r:
+                            good = True
+                        if kind == "range" and g.op == "True" and "is_in_range(_1*, _2" in r:
+                            good = True
+                    if not good:
+                        return False, "%s: Ok value not guarded by the membership test" % fid.split("::")[-1]
+        if oks == 0:
+            return False, "%s: no Ok return found" % fid
+        why.append("%s:%d" % (fid.split("::")[-1], oks))
+    return True, ",".join(why)
+
+
+def _ascii_array_source(self, s):
+    """(N, why) when the sliced string is from_utf8_lossy of a vec! of N bytes each returned by expect_and_consume*
+    with an all-ASCII constant argument"""
+    b = s.body
+    recv = repr(G.describe(b, s.term["args"][0]))
+    if "from_utf8_lossy(" not in recv:
+        return None, "receiver is not String::from_utf8_lossy(..)"
+    arrays = []
+    for blk in b.blocks:
+        for st in blk["stmts"]:
+            if st["k"] == "assign" and st["rv"]["k"] == "agg" and st["rv"].get("ak") == "array" and st["rv"].get("ty") == "u8":
+                arrays.append(st["rv"])
+    if len(arrays) != 1:
+        return None, "expected exactly one byte-array literal, found %d" % len(arrays)
+    ok, why = expect_summary_ok(self.prog)
+    if not ok:
+        return None, why
+    for o in arrays[0]["ops"]:
+        r = fmtargs.chase(b, o)
+        # value comes out of `?` on a call: (_b as Continue).0 with _b = Try::branch(call)
+        pl = r[1] if r and r[0] == "place" else None
+        call = None
+        if pl is not None:
+            sd = b.single_def(pl["l"])
+            if sd and sd[1] == "term":
+                inner = sd[2]["args"][0] if sd[2]["args"] else None
+                rr = fmtargs.chase(b, inner) if inner else None
+                if rr and rr[0] == "call":
+                    call = rr[1]
+        if call is None:
+            return None, "array element is not the Ok value of a call"
+        nm = mir.strip_generics(mir.callee_name(call) or "")
+        kind = EXPECT_FNS.get(nm)
+        if kind is None:
+            return None, "array element comes from %s" % nm
+        a = call["args"][1]
+        if kind == "byte":
+            v = G.describe(b, a)
+            if not (v.kind == "const" and v.v < 0x80):
+                return None, "expect_and_consume argument is not an ASCII constant"
+        elif kind == "str":
+            v = G.describe(b, a)
+            if not (v.kind == "conststr" and all(ord(ch) < 0x80 for ch in v.v)):
+                return None, "expect_and_consume_any_of argument is not an ASCII literal"
+        else:
+            rg = _range_const(b, a)
+            if rg is None or rg[1] >= 0x80:
+                return None, "expect_and_consume_any_in_range argument is not a constant ASCII range"
+    return len(arrays[0]["ops"]), "vec! of %d ASCII bytes" % len(arrays[0]["ops"])
+
+
+@_pred
+def ascii_fixed_array_slices(self, s, args):
+    n, why = _ascii_array_source(self, s)
+    if n is None:
+        return False, why
+    rng = G.describe(s.body, s.term["args"][1])
+    if not (rng.kind == "agg" and rng.v in ("Range", "RangeFrom", "RangeTo") and all(a.kind == "const" for a in rng.args)):
+        return False, "slice bounds are not constants"
+    if max(a.v for a in rng.args) > n or (rng.v == "Range" and rng.args[0].v > rng.args[1].v):
+        return False, "slice bounds %s exceed the %d bytes" % ([a.v for a in rng.args], n)
+    return True, "%s; constant bounds %s within it; from_utf8_lossy keeps ASCII bytes one-to-one" % (why, [a.v for a in rng.args])
+
+
+def _small_parsed(body, op, maxwidth=4):
+    v = G.describe(body, op)
+    if v.kind == "call" and v.v == "std::result::Result::unwrap_or" and v.args[0].kind == "call" and v.args[0].v == "core::str::<impl str>::parse":
+        ix = v.args[0].args[0]
+        if ix.kind == "call" and ix.v.endswith("::index") and ix.args[1].kind == "agg" and ix.args[1].v == "Range":
+            a, b2 = ix.args[1].args
+            if a.kind == "const" and b2.kind == "const" and 0 <= b2.v - a.v <= maxwidth and v.args[1].kind == "const":
+                return True
+    return False
+
+
+@_pred
+def chrono_small_args(self, s, args):
+    """TimeDelta::hours/minutes of a number parsed from at most 4 characters, or the sum of two such"""
+    b = s.body
+    if s.what.endswith("::add"):
+        for a in s.term["args"]:
+            v = G.describe(b, a)
+            if not (v.kind == "call" and v.v in ("chrono::TimeDelta::hours", "chrono::TimeDelta::minutes") and _small_parsed_val(v.args[0])):
+                return False, "operand is not hours/minutes of a short parsed number"
+        return True, "sum of two TimeDeltas each below 10^4 hours"
+    if _small_parsed(b, s.term["args"][0]):
+        return True, "argument parsed from <= 4 characters: |x| < 10^4, far inside TimeDelta's range"
+    return False, "argument is not a number parsed from a short slice"
+
+
+def _small_parsed_val(v):
+    if v.kind == "call" and v.v == "std::result::Result::unwrap_or" and v.args[0].kind == "call" and v.args[0].v == "core::str::<impl str>::parse":
+        ix = v.args[0].args[0]
+        if ix.kind == "call" and ix.v.endswith("::index") and ix.args[1].kind == "agg" and ix.args[1].v == "Range":
+            a, b2 = ix.args[1].args
+            return a.kind == "const" and b2.kind == "const" and 0 <= b2.v - a.v <= 4
+    return False
+
+
+@_pred
+def counter_in_const_range_loop(self, s, args):
+    """+1 on a local counter inside a `for _ in <const>..<const>` loop: at most (end-start) increments"""
+    from rules import scanai
+
+    b = s.body
+    da = s.term["detail"]["a"]
+    pl = mir.op_place(da)
+    if pl is None or pl["p"]:
+        return False, "not a local counter"
+    l = pl["l"]
+    ds = b.defs().get(l, [])
+    if not (ds and all(d[1] != "term" and self._is_plus_one_of(b, d[2], "_%d" % l) for d in ds)):
+        return False, "counter has writes other than constant init / +1"
+    for scc in b.sccs():
+        if s.block not in scc:
+            continue
+        for blk in scc:
+            t = b.term(blk)
+            if t["k"] == "call" and "Range" in (mir.callee_name(t) or "") and (mir.callee_name(t) or "").endswith("::next"):
+                r = fmtargs.chase(b, t["args"][0])
+                # &mut iter where iter = into_iter(Range{start,end})
+                v = G.describe(b, t["args"][0])
+                rs = repr(v)
+                import re as _re
+
+                m = _re.search(r"agg:Range\(const (-?\d+), const (-?\d+)\)", rs)
+                if m and not scanai.sub_sccs(b, scc, [blk]):
+                    n = int(m.group(2)) - int(m.group(1))
+                    if 0 <= n < (1 << 30):
+                        return True, "every cycle of the loop passes Range::next over %s..%s: at most %d increments" % (m.group(1), m.group(2), n)
+    return False, "increment is not inside a constant-range for loop"
+
+
+@_pred
+def peek_buffer_invariant(self, s, args):
+    """Scanner.next is Some(v) only with v non-empty, so `v.remove(0)` cannot panic. Inductive check over every write
+    of the field and every mutation of the buffered vector, crate-wide."""
+    prog = self.prog
+    SC = "haystack::encoding::zinc::decode::scanner::Scanner"
+    ws = self.field_writes().get((SC, "next"), [])
+    if not ws:
+        return False, "no writes of Scanner.next found"
+    some_sites = []
+    for wb, rv, bi in ws:
+        v = G.describe(wb, rv["op"]) if rv["k"] == "use" else None
+        if v is None:
+            return False, "Scanner.next written by a call in %s" % wb.short
+        if v.kind == "agg" and v.v == "None":
+            continue
+        if v.kind == "agg" and v.v == "Some":
+            inner = v.args[0] if v.args else None
+            if inner is not None and inner.kind == "call" and inner.v == "std::vec::Vec::new":
+                some_sites.append((wb, bi))
+                continue
+        return False, "Scanner.next assigned %r in %s" % (v, wb.short)
+    # (1) after every `next = Some(Vec::new())` a push on the buffer follows on all paths before returning
+    for wb, bi in some_sites:
+        pushes = [b2 for b2, t in wb.calls() if mir.strip_generics(mir.callee_name(t) or "") == "std::vec::Vec::push" and ".next" in repr(G.describe(wb, t["args"][0]))]
+        rets = [i for i, blk in enumerate(wb.blocks) if blk["term"]["k"] == "return"]
+        from vlib.dataflow import must_pass
+
+        avoid = _next_some_infeasible_edges(wb)
+        for r in rets:
+            ok, path = must_pass(wb, [bi], r, pushes, avoid_edges=avoid)
+            if not ok:
+                return False, "%s: path from `next = Some(Vec::new())` to return without push: %s" % (wb.short, path)
+    # (2) every removal from the buffer is followed by `if is_empty { next = None }`; no other shrinking calls
+    muts = []
+    for body in prog.bodies.values():
+        if "units_generated" in body.id:
+            continue
+        for bi, t in body.calls():
+            nm = mir.strip_generics(mir.callee_name(t) or "")
+            if nm in ("std::vec::Vec::remove", "std::vec::Vec::pop", "std::vec::Vec::clear", "std::vec::Vec::truncate", "std::vec::Vec::drain", "std::vec::Vec::swap_remove", "std::vec::Vec::retain") and t["args"]:
+                if ".next" in repr(G.describe(body, t["args"][0])) and "Scanner" in body.id:
+                    muts.append((body, bi, nm))
+    for body, bi, nm in muts:
+        if not nm.endswith("::remove"):
+            return False, "%s shrinks the peek buffer with %s" % (body.short, nm)
+        # the block after remove tests is_empty and resets next to None on the true edge, on every path to return
+        none_blocks = []
+        for i, blk in enumerate(body.blocks):
+            for st in blk["stmts"]:
+                if st["k"] == "assign" and st["lhs"]["p"] and isinstance(st["lhs"]["p"][-1], dict) and st["lhs"]["p"][-1].get("n") == "next":
+                    v = G.describe(body, st["rv"]["op"]) if st["rv"]["k"] == "use" else None
+                    if v is not None and v.kind == "agg" and v.v == "None":
+                        none_blocks.append(i)
+        empties = [i for i, t in body.calls() if mir.strip_generics(mir.callee_name(t) or "") == "std::vec::Vec::is_empty" and ".next" in repr(G.describe(body, t["args"][0]))]
+        if not empties:
+            return False, "%s: no is_empty test after remove" % body.short
+        # from the true edge of the is_empty switch every path to return passes a `next = None`
+        for eb in empties:
+            sw = body.term(eb)["t"]
+            st = body.term(sw)
+            if st["k"] != "switch":
+                return False, "is_empty result not branched on"
+            true_edge = st["otherwise"]
+            rets = [i for i, blk in enumerate(body.blocks) if blk["term"]["k"] == "return"]
+            from vlib.dataflow import must_pass
+
+            for r in rets:
+                if true_edge in none_blocks:
+                    continue
+                ok, path = must_pass(body, [true_edge], r, none_blocks)
+                if not ok and true_edge not in none_blocks:
+                    return False, "%s: buffer emptied but next not reset on path %s" % (body.short, path)
+    return True, "%d writes of Scanner.next (None or Some(Vec::new())+push), %d removal site(s) each followed by the empty->None reset" % (len(ws), len(muts))
+
+
+@_pred
+def callers_pass_fixed_offset_display(self, s, args):
+    """fixed_timezone(offset) is only called with FixedOffset::to_string(): '+HH:MM' or '+HH:MM:SS' (chrono's Display),
+    ASCII, at least 6 bytes with ':' at index 3, so [0..1] and [2..find(':') or 3] are in range (assumption A7)"""
+    b = s.body
+    recv = repr(G.describe(b, s.term["args"][0]))
+    if recv != "_1*":
+        return False, "sliced string is not the function's parameter"
+    rng = G.describe(b, s.term["args"][1])
+    if not (rng.kind == "agg" and rng.v == "Range"):
+        return False, "not a Range slice"
+    lo, hi = rng.args
+    ok_bounds = lo.kind == "const" and (
+        (hi.kind == "const" and lo.v <= hi.v <= 3)
+        or (hi.kind == "call" and hi.v == "std::option::Option::unwrap_or" and hi.args[1].kind == "const" and hi.args[1].v == 3 and lo.v <= 3
+            and hi.args[0].kind == "call" and hi.args[0].v == "core::str::<impl str>::find" and hi.args[0].args[1].kind == "const" and hi.args[0].args[1].v == 58)
+    )
+    if not ok_bounds:
+        return False, "bounds %r are not the audited ones" % rng
+    n = 0
+    for cb in self.prog.bodies.values():
+        for bi, t in cb.calls():
+            if (mir.callee_name(t) or "") == b.id:
+                n += 1
+                v = G.describe(cb, t["args"][0])
+                c = callee_of(cb.single_def(mir.op_place(t["args"][0])["l"])[2]) if False else None
+                if not (v.kind == "call" and v.v == "<T as std::string::ToString>::to_string" and v.args and v.args[0].kind == "call" and v.args[0].v == "chrono::DateTime::offset"):
+                    return False, "caller %s passes %r" % (cb.short, v)
+                # the DateTime must be over FixedOffset
+                if "chrono::FixedOffset" not in " ".join(cb.rec.get("sig_inputs", [])):
+                    return False, "caller's DateTime is not DateTime<FixedOffset>"
+    if n == 0:
+        return False, "no callers"
+    return True, "%d caller(s), all pass DateTime<FixedOffset>::offset().to_string()" % n
+
+
+def _next_some_infeasible_edges(body):
+    """edges (switch block -> None arm) of `match self.next` that cannot be taken because Scanner.next is known to be
+    Some there: it was just assigned Some(..) or `self.next.is_none()` just returned false on every incoming path"""
+    def is_next_place(pl):
+        return pl is not None and pl["p"] and isinstance(pl["p"][-1], dict) and pl["p"][-1].get("n") == "next" and "Scanner" in pl["p"][-1].get("a", "")
+
+    def transfer(b, facts):
+        f = set(facts)
+        blk = body.blocks[b]
+        for st in blk["stmts"]:
+            if st["k"] == "assign" and is_next_place(st["lhs"]):
+                v = G.describe(body, st["rv"]["op"]) if st["rv"]["k"] == "use" else None
+                if v is not None and v.kind == "agg" and v.v == "Some":
+                    f.add("some")
+                else:
+                    f.discard("some")
+        t = blk["term"]
+        outs = {}
+        succs = body.succ(b)
+        for s2 in succs:
+            outs[s2] = frozenset(f)
+        if t["k"] == "call":
+            nm = mir.strip_generics(mir.callee_name(t) or "")
+            if any(ty.startswith("&mut") and "Scanner" in ty for ty in t.get("arg_tys", [])):
+                f.discard("some")
+                for s2 in succs:
+                    outs[s2] = frozenset(f)
+        if t["k"] == "switch":
+            v = G.describe(body, t["op"])
+            if v.kind == "call" and v.v == "std::option::Option::is_none" and "next" in repr(v):
+                for val, tb in t["targets"]:
+                    if int(val) == 0:
+                        outs[tb] = frozenset(f | {"some"})
+        return outs
+
+    IN = forward(body, frozenset(), transfer, must=True)
+    avoid = set()
+    for b, facts in IN.items():
+        t = body.term(b)
+        if t["k"] == "switch" and "some" in facts:
+            v = G.describe(body, t["op"])
+            if v.kind == "discr" and v.args and repr(v.args[0]).endswith(".next"):
+                for val, tb in t["targets"]:
+                    if int(val) == 0:
+                        avoid.add((b, tb))
+                if not any(int(val) == 0 for val, _ in t["targets"]):
+                    if any(int(val) == 1 for val, _ in t["targets"]):
+                        avoid.add((b, t["otherwise"]))
+    return avoid
+
+
+_orig_pbi = PanicRule.pred_peek_buffer_invariant
+
+
+@_pred
+def balanced_counter(self, s, args):
+    """`field -= 1` in a function that is the only writer of the field, where a `field += 1` dominates the decrement and
+    every path from the increment to a return passes the decrement: each call restores the field, so by induction on
+    the call depth the value at the decrement is (value at the increment) + 1 >= 1"""
+    b = s.body
+    pl = mir.op_place(s.term["detail"]["a"])
+    if pl is None or not pl["p"] or not isinstance(pl["p"][-1], dict) or "a" not in pl["p"][-1]:
+        return False, "not a field"
+    fld = (pl["p"][-1]["a"], pl["p"][-1]["n"])
+    ws = self.field_writes().get(fld, [])
+    incs, decs, inits = [], [], []
+    for wb, rv, bi in ws:
+        if rv["k"] != "use":
+            return False, "field written by a call"
+        c = mir.op_const(rv["op"])
+        if c is not None:
+            inits.append(bi)
+            continue
+        p2 = mir.op_place(rv["op"])
+        sd = wb.single_def(p2["l"]) if p2 is not None and len(p2["p"]) == 1 else None
+        if not (sd and sd[1] != "term" and sd[2]["k"] == "binop"):
+            return False, "unrecognised write in %s" % wb.short
+        y = G.describe(wb, sd[2]["b"])
+        if not (y.kind == "const" and y.v == 1 and repr(G.describe(wb, sd[2]["a"])).endswith("." + fld[1])):
+            return False, "write is not +-1"
+        if wb.id != b.id:
+            return False, "%s also writes the counter" % wb.short
+        (incs if sd[2]["op"].startswith("Add") else decs).append(bi)
+    if len(incs) != 1 or len(decs) != 1:
+        return False, "expected one increment and one decrement, found %d/%d" % (len(incs), len(decs))
+    if not b.dominates(incs[0], decs[0]):
+        return False, "increment does not dominate the decrement"
+    from vlib.dataflow import must_pass
+
+    for r in [i for i, blk in enumerate(b.blocks) if blk["term"]["k"] == "return"]:
+        ok, path = must_pass(b, [incs[0]], r, [decs[0]])
+        if not ok:
+            return False, "path %s leaves the function between += 1 and -= 1" % path
+    return True, "%s.%s: only %s writes it (+1 at bb%d, -1 at bb%d, balanced on all paths)" % (fld[0].split("::")[-1], fld[1], b.short.split("::")[-1], incs[0], decs[0])
+
+
+def _auto_add_under_bound(self, s):
+    """x + 1 where a dominating guard says x < K (K a constant that fits the type)"""
+    if s.cls != "Overflow" or s.term["detail"].get("op") != "Add":
+        return None
+    b = s.body
+    a = G.describe(b, s.term["detail"]["a"])
+    c = G.describe(b, s.term["detail"]["b"])
+    if not (c.kind == "const" and 0 <= c.v <= 1024):
+        return None
+    for g in G.guards_at(b, s.block):
+        if g.op in ("Lt", "Le") and g.b is not None and g.b.kind == "const" and g.a.same(a) and g.b.v + c.v < (1 << 31):
+            return "D-auto:dominating guard %r bounds the sum" % g
+        if g.op in ("Gt", "Ge") and g.a.kind == "const" and g.b is not None and g.b.same(a) and g.a.v + c.v < (1 << 31):
+            return "D-auto:dominating guard %r bounds the sum" % g
+    return None
+
+
+PanicRule.auto_add_under_bound = _auto_add_under_bound
+
+
+@_pred
+def refcell_borrow_scoped(self, s, args):
+    """RefCell::borrow_mut on the thread-local LAST_ERROR: the RefMut is dropped before any crate-local code runs, so the
+    cell is never borrowed twice on one thread (values dropped while it is held are Box<dyn Error> of external types, A2)"""
+    b = s.body
+    dest = s.term["dest"]["l"]
+    drops = [i for i, blk in enumerate(b.blocks) if blk["term"]["k"] == "drop" and blk["term"]["place"]["l"] == dest and not blk.get("cleanup")]
+    if not drops:
+        return False, "RefMut is never dropped in this function (escapes)"
+    start = s.term["t"]
+    seen = {start}
+    st = [start]
+    while st:
+        x = st.pop()
+        t = b.term(x)
+        if t["k"] == "drop" and t["place"]["l"] == dest:
+            continue
+        if t["k"] == "return":
+            return False, "a path returns while the RefMut is still alive"
+        if t["k"] == "call":
+            tg, cb, ext = self.prog.site_targets(b, t)
+            if tg or cb:
+                return False, "crate-local code (%s) runs while the RefMut is held" % mir.strip_generics(sorted(tg | cb)[0])
+        for n in b.succ(x):
+            if n not in seen:
+                seen.add(n)
+                st.append(n)
+    return True, "RefMut dropped at bb%s with only std calls in between (%d blocks)" % (drops, len(seen))
+
+
+@_pred
+def collected_from_array(self, s, args):
+    """v[i] with constant i where v is the Ok payload of `[a, b, ..].iter().map(..).collect::<Result<Vec<_>, _>>()`:
+    no filtering adaptor, so the vector has exactly as many elements as the array"""
+    b = s.body
+    ix = G.describe(b, s.term["args"][1])
+    if ix.kind != "const":
+        return False, "index is not constant"
+    import re as _re
+
+    recv = repr(G.describe(b, s.term["args"][0]))
+    m0 = _re.fullmatch(r"_(\d+) as Ok\.0", recv)
+    # root must be (<local> as Ok).0 with local = collect(map(iter(array[N])))
+    if not m0:
+        return False, "receiver is not the Ok payload of a collected Result"
+    v = G.describe(b, {"cp": {"l": int(m0.group(1)), "p": []}})
+    r = repr(v)
+
+    if not r.startswith("std::iter::Iterator::collect(std::iter::Iterator::map(core::slice::<impl [T]>::iter("):
+        return False, "vector is not collect(map(iter(array))): %s" % r[:80]
+    if "filter" in r or "take" in r or "skip" in r:
+        return False, "adaptor chain may drop elements"
+    m = _re.search(r"iter\(agg:array\((.*?)\)\), agg:closure", r)
+    n = None
+    for blk in b.blocks:
+        for st in blk["stmts"]:
+            if st["k"] == "assign" and st["rv"]["k"] == "agg" and st["rv"].get("ak") == "array" and "fmt::rt::Argument" not in st["rv"].get("ty", ""):
+                n = len(st["rv"]["ops"]) if n is None else -1
+    if n is None or n < 0:
+        return False, "could not find a unique array literal"
+    if ix.v >= n:
+        return False, "index %d >= array length %d" % (ix.v, n)
+    return True, "collected 1:1 from an array literal of %d elements; index %d" % (n, ix.v)
+
+
+@_pred
+def kind_filtered_args(self, s, args):
+    """`Date::try_from(args[0]).expect()` / `Time::try_from(args[1]).expect()` where args was filtered by a closure that
+    keeps index 0 only if is_date() and index 1 only if is_time(), and args.len() == 2 dominates"""
+    b = s.body
+    v = G.describe(b, s.term["args"][0])
+    if not (v.kind == "call" and v.v.endswith("as std::convert::TryFrom>::try_from") and v.args and v.args[0].kind == "call" and v.args[0].v.endswith("::index")):
+        return False, "receiver is not T::try_from(args[i])"
+    idx = v.args[0].args[1]
+    vec = v.args[0].args[0]
+    want = {0: "is_date", 1: "is_time"}.get(idx.v if idx.kind == "const" else -1)
+    if want is None:
+        return False, "index is not 0/1"
+    tname = "Date" if want == "is_date" else "Time"
+    if ("::%s as" % tname) not in v.v:
+        return False, "conversion type does not match the filtered kind"
+    if not any(g.op == "Eq" and g.b is not None and g.b.kind == "const" and g.b.v == 2 and is_len_of(g.a, vec) for g in G.guards_at(b, s.block)):
+        return False, "len() == 2 guard does not dominate"
+    if "std::iter::Iterator::filter(std::iter::Iterator::enumerate(" not in repr(vec):
+        return False, "args is not filter(enumerate(..))"
+    # the filter closure must test both kinds, each tied to its index
+    for cid in self.prog.closures_of.get(b.id, []):
+        cb = self.prog.bodies[cid]
+        names = {mir.strip_generics(mir.callee_name(t) or "").split("::")[-1] for _, t in cb.calls()}
+        if {"is_date", "is_time"} <= names:
+            consts = set()
+            for blk in cb.blocks:
+                t = blk["term"]
+                if t["k"] == "switch":
+                    consts |= {int(x[0]) for x in t["targets"]}
+                for st in blk["stmts"]:
+                    if st["k"] == "assign" and st["rv"]["k"] == "binop" and st["rv"]["op"] == "Eq":
+                        for o in (st["rv"]["a"], st["rv"]["b"]):
+                            c = mir.op_const(o)
+                            if c is not None and mir.const_int(c) is not None:
+                                consts.add(mir.const_int(c))
+            if {0, 1} <= consts:
+                return True, "filter closure keeps (0, is_date) and (1, is_time); len()==2 dominates; try_from(%s) on a %s cannot fail" % (tname, tname)
+    return False, "no filter closure testing is_date and is_time found"
+
+
+@_pred
+def present_in_map(self, s, args):
+    """cache.get(k).expect(): on every path to the site either contains_key(k) was true or insert(k, ..) was executed
+    on the same DashMap field, and nothing in the crate ever removes from that map (R-LOCK K3)"""
+    b = s.body
+    v = G.describe(b, s.term["args"][0])
+    if not (v.kind == "call" and v.v == "dashmap::DashMap::get" and len(v.args) == 2):
+        return False, "receiver is not DashMap::get(..)"
+    m, k = repr(v.args[0]), repr(v.args[1])
+    get_block = None
+    for bi, t in b.calls():
+        if t["dest"] == {"l": mir.op_place(s.term["args"][0])["l"], "p": []} and mir.strip_generics(mir.callee_name(t) or "") == "dashmap::DashMap::get":
+            get_block = bi
+    def transfer(bi, facts):
+        f = set(facts)
+        t = b.term(bi)
+        outs = None
+        if t["k"] == "call":
+            nm = mir.strip_generics(mir.callee_name(t) or "")
+            if nm == "dashmap::DashMap::insert" and repr(G.describe(b, t["args"][0])) == m:
+                kk = G.describe(b, t["args"][1])
+                if repr(kk) == k or (kk.kind == "call" and kk.v.endswith("::clone") and repr(kk.args[0]) == k):
+                    f.add("present")
+        if t["k"] == "switch":
+            vv = G.describe(b, t["op"])
+            if vv.kind == "call" and vv.v == "dashmap::DashMap::contains_key" and repr(vv.args[0]) == m and repr(vv.args[1]) == k:
+                outs = {}
+                for val, tb in t["targets"]:
+                    outs[tb] = frozenset(f | ({"present"} if int(val) != 0 else set()))
+                vals = {int(x[0]) for x in t["targets"]}
+                outs[t["otherwise"]] = frozenset(f | ({"present"} if 0 in vals else set()))
+                return outs
+        return frozenset(f)
+    IN = forward(b, frozenset(), transfer, must=True)
+    tgt = get_block if get_block is not None else s.block
+    if "present" not in IN.get(tgt, frozenset()):
+        return False, "a path reaches the lookup without contains_key(k)==true or insert(k, ..) on %s" % m
+    # K3: no removal anywhere
+    field = m.split(".")[-1]
+    for body in self.prog.bodies.values():
+        if "units_generated" in body.id:
+            continue
+        for bi, t in body.calls():
+            nm = mir.strip_generics(mir.callee_name(t) or "")
+            if nm.startswith("dashmap::DashMap::") and nm.split("::")[-1] in ("remove", "remove_if", "clear", "retain", "alter", "alter_all", "shrink_to_fit", "get_mut", "entry", "iter_mut") and t["args"]:
+                if repr(G.describe(body, t["args"][0])).endswith("." + field):
+                    return False, "%s calls %s on the cache" % (body.short, nm)
+    return True, "insert/contains_key of the same key precedes the lookup on every path; no remove/clear/retain on .%s in the crate" % field
